@@ -81,6 +81,28 @@ func (c *concretizer) tj(v Value) *TJ {
 		return &TJ{T: "f64", V: fstr(x)}
 	case string:
 		return &TJ{T: "str", V: x}
+	case *SymStr:
+		n := 0
+		if cl, ok := constLen(x); ok {
+			n = cl
+		} else if mv, ok := c.sym(x.Len); ok {
+			u, _ := smt.DecodeBV(mv)
+			n = int(u)
+		}
+		b := make([]byte, 0, n)
+		for i := 0; i < n && i < len(x.Ch); i++ {
+			ch := x.Ch[i]
+			if mv, ok := c.sym(ch); ok {
+				u, _ := smt.DecodeBV(mv)
+				b = append(b, byte(u))
+			} else if len(ch.S) == 4 && ch.S[:2] == "#x" {
+				u, _ := smt.DecodeBV(ch.S)
+				b = append(b, byte(u))
+			} else {
+				b = append(b, '?')
+			}
+		}
+		return &TJ{T: "str", V: string(b)}
 	case *smt.Term:
 		mv, ok := c.sym(x)
 		if !ok {
